@@ -499,10 +499,26 @@ theorem laplacianSpec_model (tol : Rat) (ht : 0 ≤ tol) (a l : Mat) (h : getLap
       simp [e]
 
 /-- the specification evaluated on the implementation's `get_membership` holds of the model's output -/
-theorem membershipSpec_model (l : List Int) (m : Int) : MembershipSpec l (csrDense (membershipCsr l m)) = true := by
+theorem membershipCols_nCol {l : List Int} {nl : Option Nat} {m : Int} (hm : membershipCols l nl = .ok m) :
+    m.toNat = membershipNCol l nl := by
+  unfold membershipCols at hm
+  unfold membershipNCol
+  cases nl with
+  | some k => simp only at hm ⊢; cases hm; simp
+  | none =>
+    simp only at hm ⊢
+    cases l with
+    | nil => simp [maxPlusOne] at hm
+    | cons x xs =>
+      simp only [maxPlusOne] at hm
+      cases hm
+      simp [List.foldl_cons, List.headD]
+
+theorem membershipSpec_model (l : List Int) (nl : Option Nat) (m : Int) (hm : membershipCols l nl = .ok m) :
+    MembershipSpec l nl (csrDense (membershipCsr l m)) = true := by
   unfold MembershipSpec rowAll colAll
   simp only [Bool.and_eq_true, beq_iff_eq, List.all_eq_true, List.mem_range]
-  refine ⟨rfl, fun i hi j hj => ?_⟩
+  refine ⟨⟨rfl, membershipCols_nCol hm⟩, fun i hi j hj => ?_⟩
   have hi' : i < l.length := hi
   have hj' : j < m.toNat := hj
   rw [membership_dense l m i j hi' hj', List.getD_eq_getElem?_getD, List.getElem?_eq_getElem hi']
